@@ -94,7 +94,8 @@ static void markup_pass(int sh,int n,int tlen,int clen,bool outcomes){ size_t nc
 	all_seq(tokens(),tlen,sh,n,[&](const std::string &s){ vf::announce("tokens "+vf::hex(s)); for(size_t k=0;k<g_cfg.size();k++) one(g_cfg[k],s,true,outcomes&&s.size()<=9); });
 	all_seq(chars(),clen,sh,n,[&](const std::string &s){ vf::announce("chars "+vf::hex(s)); for(size_t k=0;k<g_cfg.size();k++) one(g_cfg[k],s,true,outcomes&&s.size()<=3); }); (void)ncfg; flush(); }
 // targeted attribute / URI values inside a white-listed tag (scheme obfuscations a browser would still execute)
-static void uri_pass(int sh,int n){ const char *vals[]={"javascript:alert(1)","JaVaScRiPt:x","java\tscript:x","java&#x09;script:x"," javascript:x","&#106;avascript:x","jav&#x61;script:x","vbscript:x","data:text/html,x","http://a/b","HTTPS://a","//host/p","/p?a=1&amp;b=2","p#f","mailto:a@b","ftp://h","x:y","http:","","a b","http://a/%zz","http://[::1]/","?q","&amp;","&lt;script&gt;","'","\"","&apos;","&#39;","&#x27;","-12","12","1x","abc","ABC","a&amp;b"};
+static void uri_pass(int sh,int n){ const char *vals[]={"javascript:alert(1)","JaVaScRiPt:x","java\tscript:x","java&#x09;script:x"," javascript:x","&#106;avascript:x","jav&#x61;script:x","vbscript:x","data:text/html,x","http://a/b","HTTPS://a","//host/p","/p?a=1&amp;b=2","p#f","mailto:a@b","ftp://h","x:y","http:","","a b","http://a/%zz","http://[::1]/","?q","&amp;","&lt;script&gt;","'","\"","&apos;","&#39;","&#x27;","-12","12","1x","abc","ABC","a&amp;b",
+		/* schemes with every character class RFC 3986 allows after the first letter, and near misses */ "ms-msdt:/id","view-source:http://a/","x-javascript:alert(1)","a-b:c","a+b:c","a.b:c","a_b:c","-a:b","+a:b",".a:b","1a:b","a1:b","http-x://h/","svn+ssh://h/p","z39.50s://h","a:","a:b","ab:c","http-:x","h-t-t-p://x","java-script:x","a--b:c","a-:b","data-x:1"};
 	const char *tmpl[]={"<a href='%'>t</a>","<a href=\"%\">t</a>","<a title='%'>t</a>","<img src='%'/>","<img src='%'>","<input size='%'/>","<input checked='%'/>","<a href='%' href='x'>t</a>","<A HREF='%'>t</A>","<a href ='%'>t</a>","<a href= '%'>t</a>","<a\thref='%'>t</a>","<a href='%'title='abc'>t</a>"}; int idx=0;
 	for(size_t i=0;i<sizeof(vals)/sizeof(*vals);i++) for(size_t t=0;t<sizeof(tmpl)/sizeof(*tmpl);t++){ if((idx++%n)!=sh) continue; std::string s=tmpl[t]; size_t p=s.find('%'); s.replace(p,1,vals[i]); vf::announce("uri "+vf::hex(s)); for(size_t k=0;k<g_cfg.size();k++) one(g_cfg[k],s,true,true); vf::guard("uri_cases"); } flush(); }
 // numeric character references at and around every boundary of the allowed set, in every spelling (radix, case, leading zeros, 9..40 digits):
@@ -127,7 +128,7 @@ int main(int argc,char **argv){ vf::init(argc,argv,"C04","exploration"); int n=1
 	{ std::vector<RuleSpec> s=rule_specs(); for(size_t i=0;i<s.size();i++){ Cfg c; c.spec=s[i]; c.rules=build(s[i]); g_cfg.push_back(c); } }
 	if(!vf::C().replay_file.empty()){ std::ifstream f(vf::C().replay_file); std::stringstream ss; ss<<f.rdbuf(); std::string l=ss.str(); std::string in=vf::unhex(vf::jfield(l,"input_hex")),rl=vf::jfield(l,"rules"); for(size_t k=0;k<g_cfg.size();k++) if(rl.empty()||rl==g_cfg[k].spec.label){ one(g_cfg[k],in,true,false); printf("replayed under %s: remove->%s escape->%s\n",g_cfg[k].spec.label.c_str(),vf::vis(xss::filter(in,g_cfg[k].rules,xss::remove_invalid)).c_str(),vf::vis(xss::filter(in,g_cfg[k].rules,xss::escape_invalid)).c_str()); } return vf::finish(); }
 	if(vf::C().pass=="enum"){ vf::parallel(n,n,[&](int sh){ markup_pass(sh,n,th?5:4,th?7:6,false); },1500); return vf::finish(); }
-	vf::C().rule=std::string("every sequence of <= ")+(th?"5":"4")+" tokens of a 26-token markup alphabet and every string of length <= "+(th?"7":"6")+" over {< > & ; a / = ' \" ! - # space x}, each under 6 rule sets (xhtml/html; open+close, stand-alone and any tags; boolean, integer, regex, uri, relative-uri, absolute-uri-with-scheme properties; entities; numeric entities and comments on/off; two with a declared encoding) x {remove_invalid, escape_invalid} (rel build; lengths 3/4 again under ASan); 36 attribute values x 13 tag templates; numeric character references for ~160 values at every boundary of the allowed code-point set and beyond 2^32 / 2^64 / 2^96 x {decimal, hex, HEX} x {0,1,12} leading zeros x 5 templates (a reference must be refused unless its arbitrary-precision value is an allowed code point); byte-token strings under UTF-8 / ISO-8859-1 / windows-1252 and UTF-16LE. distinct = (rule set, method, validity, output text); all non-trivial";
+	vf::C().rule=std::string("every sequence of <= ")+(th?"5":"4")+" tokens of a 26-token markup alphabet and every string of length <= "+(th?"7":"6")+" over {< > & ; a / = ' \" ! - # space x}, each under 6 rule sets (xhtml/html; open+close, stand-alone and any tags; boolean, integer, regex, uri, relative-uri, absolute-uri-with-scheme properties; entities; numeric entities and comments on/off; two with a declared encoding) x {remove_invalid, escape_invalid} (rel build; lengths 3/4 again under ASan); 60 attribute values (incl. URI schemes using '-', '+', '.', digits, and near misses) x 13 tag templates; numeric character references for ~160 values at every boundary of the allowed code-point set and beyond 2^32 / 2^64 / 2^96 x {decimal, hex, HEX} x {0,1,12} leading zeros x 5 templates (a reference must be refused unless its arbitrary-precision value is an allowed code point); byte-token strings under UTF-8 / ISO-8859-1 / windows-1252 and UTF-16LE. distinct = (rule set, method, validity, output text); all non-trivial";
 	vf::assume("the lenient scanner in harness/C04 (rule sets as plain tables, browser-like scheme extraction) defines 'white-listed construct'");
 	vf::assume("allowed numeric character reference = value (arbitrary precision) <= 0x10FFFF, not a C0/C1 control other than TAB/LF/CR, not U+FFFE/U+FFFF, not a high surrogate; low surrogates U+DC00..U+DFFF are not demanded either way (the implementation accepts them)"); vf::assume("what exactly is removed vs kept is not demanded, only that the result validates, is a fixed point, and contains no markup outside the white list");
 	vf::run_sub("rel","enum");
